@@ -93,7 +93,7 @@ pub fn run(ctx: &Ctx) {
     ctx.assume("no hash-sigs binary is available offline: compatibility rests on the model being an independent transcription of the hash-sigs layout, anchored on the RFC 8554 vectors for the LMS part");
     ctx.assume("for hashes other than SHA-256/32 the model pins the current construction");
     let budget = ctx.tier.pick(1_200_000u64, 30_000_000u64);
-    let cases = ctx.tier.pick(1600u32, 40_000u32);
+    let cases = ctx.tier.pick(2_400u32, 40_000u32);
     ctx.random("keys", &|| key_case(budget), cases, Opts { shrink_iters: 100, ..Opts::default() }, check_keys);
     // grid: every hash x every W x {H2,H5} as single-level and as root of an 8-level list
     let mut grid: Vec<KeyCase> = Vec::new();
